@@ -9,6 +9,9 @@ Rules (DESIGN.md section 4, C12):
                      from a matched Cancelled payload, or from the function argument (From impl)
   result-must-use    no Result carrying a cancellation channel is dropped or neutralised
   short-circuit      in Encoder::encode the `?` on a task result dominates on_task_result
+
+Added after the second and third seeding rounds:
+  poll-value-propagated  every should_cancel_with_value call in the solver is matched and its Some payload reaches Err / Cancelled
 """
 from common import *
 import q
